@@ -1,82 +1,15 @@
 /-
-  Lemmas/IncentShare — the stream share formula `amount.Mul(weight.Quo(total)).TruncateInt()` in
-  closed form: ⌊amount · ratio / 10^18⌋ with `ratio = round_half_even(weight·10^18 / total)`.
+  Lemmas/IncentShare — the stream share formula after fix D1: `coin.Amount.Mul(weight).Quo(total)`,
+  i.e. ⌊amount·weight/total⌋; the shares of one epoch never exceed the epoch's coins.
 -/
 import DymVerif.Lemmas.IncentBasic
 namespace DymVerif.Incent
 open DymVerif
 
-/-- `weight.Quo(total)` as a raw 18-decimal numerator -/
-def ratio (w W : Nat) : Nat := ((Dec.ofInt (w : Int)).quo (Dec.ofInt (W : Int))).raw.toNat
-
-theorem chopRound_nonneg (d : Int) (h : 0 ≤ d) : 0 ≤ chopRound d := by
-  unfold chopRound
-  have : ¬ d < 0 := by omega
-  simp only [this, if_false]
-  exact Int.natCast_nonneg _
-
-theorem chopRound_nat_mul (n : Nat) : chopRound ((n : Int) * decP) = (n : Int) := by
-  unfold chopRound
-  have h1 : ((n : Int) * decP).natAbs = n * decPN := by
-    rw [Int.natAbs_mul]; simp [decP, decPN]
-  have h2 : ¬ ((n : Int) * decP < 0) := by
-    have : (0 : Int) ≤ (n : Int) * decP := Int.mul_nonneg (Int.natCast_nonneg _) (by decide)
-    omega
-  have hpos : 0 < decPN := by decide
-  have hhalf : 0 < decHalf := by decide
-  simp only [h1, h2, if_false, Nat.mul_mod_left, Nat.mul_div_cancel _ hpos, hhalf, if_true]
-
-theorem quo_raw_nonneg (w W : Nat) : 0 ≤ ((Dec.ofInt (w : Int)).quo (Dec.ofInt (W : Int))).raw := by
-  unfold Dec.quo Dec.ofInt
-  simp only
-  apply chopRound_nonneg
-  apply Int.tdiv_nonneg
-  · exact Int.mul_nonneg (Int.mul_nonneg (Int.mul_nonneg (Int.natCast_nonneg _) (by decide)) (by decide)) (by decide)
-  · exact Int.mul_nonneg (Int.natCast_nonneg _) (by decide)
-
-/-- closed form of the share -/
-theorem streamShare_eq (a w W : Nat) : streamShare a w W = a * ratio w W / decPN := by
-  unfold streamShare ratio
-  have hq := quo_raw_nonneg w W
-  generalize ((Dec.ofInt (w : Int)).quo (Dec.ofInt (W : Int))) = q at hq ⊢
-  obtain ⟨n, hn⟩ := Int.eq_ofNat_of_zero_le hq
-  unfold Dec.mul Dec.truncateInt chopTrunc Dec.ofInt
-  simp only [hn]
-  have : (a : Int) * decP * (n : Int) = ((a * n : Nat) : Int) * decP := by
-    rw [Int.natCast_mul, Int.mul_assoc, Int.mul_comm decP, ← Int.mul_assoc]
-  rw [this, chopRound_nat_mul]
-  have h2 : decP = ((decPN : Nat) : Int) := by decide
-  rw [h2, ← Int.ofNat_tdiv, Int.toNat_natCast, Int.toNat_natCast]
-
-/-- Σ ⌊a·q_i / P⌋ ≤ ⌊a·Σq_i / P⌋ -/
-theorem share_sum_le (a : Nat) (qs : List Nat) :
-    (qs.map (fun q => a * q / decPN)).sum ≤ a * qs.sum / decPN := by
-  induction qs with
-  | nil => simp
-  | cons q rest ih =>
-    rw [List.map_cons, List.sum_cons, List.sum_cons, Nat.mul_add]
-    have := div_add_div_le (a * q) (a * rest.sum) decPN
-    omega
-
-/-- the shares of one epoch stay within the epoch's coins **provided** the rounded ratios add up to
-    at most 1 (they need not: half-even rounding of `w/W` can round every ratio up) -/
-theorem shares_le_of_ratios (a W : Nat) (ws : List Nat) (h : (ws.map (fun w => ratio w W)).sum ≤ decPN) :
+/-- Σ ⌊a·w/W⌋ ≤ ⌊a·Σw/W⌋ ≤ a whenever Σ w ≤ W -/
+theorem streamShare_sum_le (a W : Nat) (ws : List Nat) (h : ws.sum ≤ W) :
     (ws.map (fun w => streamShare a w W)).sum ≤ a := by
-  have h1 : ws.map (fun w => streamShare a w W) = (ws.map (fun w => ratio w W)).map (fun q => a * q / decPN) := by
-    simp [List.map_map, Function.comp_def, streamShare_eq]
-  rw [h1]
-  refine Nat.le_trans (share_sum_le a _) ?_
-  apply Nat.div_le_of_le_mul
-  rw [Nat.mul_comm decPN a]
-  exact Nat.mul_le_mul_left a h
-
-
-/-- the repaired formula (multiply before dividing, on math.Int): ⌊a·w/W⌋ -/
-def fixedShare (a w W : Nat) : Nat := a * w / W
-
-theorem fixedShare_sum_le (a W : Nat) (ws : List Nat) (h : ws.sum ≤ W) :
-    (ws.map (fun w => fixedShare a w W)).sum ≤ a := by
-  have h1 : (ws.map (fun w => fixedShare a w W)).sum ≤ a * ws.sum / W := by
+  have h1 : (ws.map (fun w => streamShare a w W)).sum ≤ a * ws.sum / W := by
     induction ws with
     | nil => simp
     | cons w rest ih =>
@@ -84,7 +17,7 @@ theorem fixedShare_sum_le (a W : Nat) (ws : List Nat) (h : ws.sum ≤ W) :
       have := ih hr
       rw [List.map_cons, List.sum_cons, List.sum_cons, Nat.mul_add]
       have := div_add_div_le (a * w) (a * rest.sum) W
-      unfold fixedShare at *
+      unfold streamShare at *
       omega
   refine Nat.le_trans h1 ?_
   rcases Nat.eq_zero_or_pos W with h0 | h0
@@ -92,5 +25,10 @@ theorem fixedShare_sum_le (a W : Nat) (ws : List Nat) (h : ws.sum ≤ W) :
   · apply Nat.div_le_of_le_mul
     rw [Nat.mul_comm W a]
     exact Nat.mul_le_mul_left a h
+
+/-- the formula the code had before fix D1 (`amount.Mul(weight.Quo(total)).TruncateInt()` on LegacyDec:
+    the ratio is rounded half-even at 18 decimals before the multiplication), kept for the record -/
+def streamShareOld (amount weight total : Nat) : Nat :=
+  ((Dec.ofInt amount).mul ((Dec.ofInt weight).quo (Dec.ofInt total))).truncateInt.toNat
 
 end DymVerif.Incent
